@@ -5,7 +5,8 @@
    Satisfiability of the hypotheses: C01/Examples.v. *)
 From Coq Require Import List Bool Arith Lia.
 From QV Require Import Base.Mat C01.Model C01.Spec C01.Lib C01.ProofsSV C01.ProofsCtrl C01.ProofsMat
-  C01.ProofsRun C01.ProofsDM C01.ProofsRunDM C01.ProofsDMCor.
+  C01.ProofsRun C01.ProofsFused C01.ProofsQueue C01.ProofsDM C01.ProofsRunDM C01.ProofsDMCor
+  C01.ModelExtra C01.ProofsGram C01.ProofsExtra.
 Import ListNotations.
 
 (* right einsum with conj(M), then left einsum with M *)
@@ -71,3 +72,90 @@ Theorem dm_trace_ok : forall (T : Type) (K : ops T) (cj : T -> T), semiring K ->
   mtrace K n (execute_dm K cj n gs rho) = mtrace K n rho.
 Proof. exact @dm_trace_eq. Qed.
 Print Assumptions dm_trace_ok.
+
+(* ---------------------------------------------------------------- Gram forms: positivity without an order,
+   and the strongest tie between the two semantics.  gram n [(a_i, v_i, w_i)] = sum_i a_i |v_i><w_i|.
+   The density-matrix run maps it to sum_i a_i |U v_i><U w_i| where U v_i, U w_i are the STATE-VECTOR runs
+   (Model.execute) of the same queue.  With w_i = v_i and non-negative a_i (in an ordered carrier) this is
+   preservation of positive semidefiniteness; every 2^n x 2^n matrix is a Gram form (gram_complete_ok). *)
+Theorem dm_run_preserves_gram_form : forall (T : Type) (K : ops T) (cj : T -> T), semiring K -> conj_ok K cj ->
+  forall n (gs : list gate) (l : list (term (T:=T))), Forall (gate_wf n) gs -> Forall (term_ok n) l ->
+  execute_dm K cj n gs (gram K cj n l) = gram K cj n (map (map_term (execute K n gs) (execute K n gs)) l).
+Proof. exact @dm_run_gram_eq. Qed.
+Print Assumptions dm_run_preserves_gram_form.
+
+Theorem dm_gate_preserves_gram_form : forall (T : Type) (K : ops T) (cj : T -> T), semiring K -> conj_ok K cj ->
+  forall n (g : gate) (l : list (term (T:=T))), gate_wf n g -> Forall (term_ok n) l ->
+  apply_gate_dm K cj n g (gram K cj n l) = gram K cj n (map (map_term (apply_gate K n g) (apply_gate K n g)) l).
+Proof. exact @dm_gate_gram_eq. Qed.
+Print Assumptions dm_gate_preserves_gram_form.
+
+Theorem dm_plain_preserves_gram_form : forall (T : Type) (K : ops T) (cj : T -> T), semiring K -> conj_ok K cj ->
+  forall n qs (M : mat T) (l : list (term (T:=T))), NoDup qs -> (forall q, In q qs -> q < n) -> Forall (term_ok n) l ->
+  apply_gate_dm_plain K cj n qs M (gram K cj n l)
+  = gram K cj n (map (map_term (apply_gate_plain K n qs M) (apply_gate_plain K n qs M)) l).
+Proof. exact @dm_plain_gram_eq. Qed.
+Print Assumptions dm_plain_preserves_gram_form.
+
+Theorem dm_ctrl_preserves_gram_form : forall (T : Type) (K : ops T) (cj : T -> T), semiring K -> conj_ok K cj ->
+  forall n cs ts (M : mat T) (l : list (term (T:=T))),
+  incr_from 0 cs -> (forall c, In c cs -> c < n) -> NoDup ts -> (forall t, In t ts -> t < n) ->
+  (forall t, In t ts -> ~ In t cs) -> Forall (term_ok n) l ->
+  apply_gate_dm_ctrl K cj n cs ts M (gram K cj n l)
+  = gram K cj n (map (map_term (apply_gate_ctrl K n cs ts M) (apply_gate_ctrl K n cs ts M)) l).
+Proof. exact @dm_ctrl_gram_eq. Qed.
+Print Assumptions dm_ctrl_preserves_gram_form.
+
+(* half call: only the ket side moves *)
+Theorem dm_half_preserves_gram_form : forall (T : Type) (K : ops T) (cj : T -> T), semiring K ->
+  forall n qs (M : mat T) (l : list (term (T:=T))), NoDup qs -> (forall q, In q qs -> q < n) -> Forall (term_ok n) l ->
+  apply_gate_half_dm K n qs M (gram K cj n l)
+  = gram K cj n (map (map_term (apply_gate_plain K n qs M) (fun w => w)) l).
+Proof. exact @dm_half_gram_eq. Qed.
+Print Assumptions dm_half_preserves_gram_form.
+
+Theorem gram_complete_ok : forall (T : Type) (K : ops T) (cj : T -> T), semiring K -> conj_ok K cj ->
+  forall n (rho : mat T), wf_mat n rho ->
+  rho = gram K cj n (gram_of K n rho) /\ Forall (term_ok n) (gram_of K n rho).
+Proof. intros T K cj HK HC n rho Hr. split; [now apply (gram_complete K cj HK HC)|apply gram_of_ok]. Qed.
+Print Assumptions gram_complete_ok.
+
+(* ---------------------------------------------------------------- execute_circuit: initial states *)
+(* zero_density_matrix = |0..0><0..0| and the default density-matrix run is the projector onto the default
+   state-vector run *)
+Theorem default_run_pure_ok : forall (T : Type) (K : ops T) (cj : T -> T), semiring K -> conj_ok K cj ->
+  forall n (gs : list (gate (T:=T))), Forall (gate_wf n) gs ->
+  execute_circuit_dm K cj n gs (DInitNone) =
+  option_map (fun psi => outer K cj n psi psi) (execute_circuit K n gs (InitNone)).
+Proof. exact @default_run_pure. Qed.
+Print Assumptions default_run_pure_ok.
+
+(* initial_state given as a Circuit: it is executed first (both modes) *)
+Theorem initial_circuit_ok : forall (T : Type) (K : ops T) (cj : T -> T) n (c0 gs : list (gate (T:=T))),
+  execute_circuit K n gs (InitCircuit c0) = Some (execute K n gs (execute K n c0 (zero_state K n)))
+  /\ execute_circuit_dm K cj n gs (DInitCircuit c0)
+     = Some (execute_dm K cj n gs (execute_dm K cj n c0 (zero_density_matrix K n))).
+Proof. exact @initial_circuit_run. Qed.
+Print Assumptions initial_circuit_ok.
+
+(* an array initial state is accepted iff it has the right shape, and then the run is U rho U^dagger *)
+Theorem execute_circuit_dm_ok : forall (T : Type) (K : ops T) (cj : T -> T), semiring K -> conj_ok K cj ->
+  forall n (gs : list gate) (rho : mat T), Forall (gate_wf n) gs ->
+  execute_circuit_dm K cj n gs (DInitArray rho) =
+  if shape_ok (2 ^ n) rho then Some (sandwich K cj n (circ_op K n gs) rho) else None.
+Proof. exact @execute_circuit_dm_eq. Qed.
+Print Assumptions execute_circuit_dm_ok.
+
+Theorem execute_circuit_sv_ok : forall (T : Type) (K : ops T), semiring K ->
+  forall n (gs : list gate) (v : vec T), Forall (gate_wf n) gs ->
+  execute_circuit K n gs (InitArray v) =
+  if Nat.eqb (length v) (2 ^ n) then Some (mvmul K (circ_op K n gs) v) else None.
+Proof. exact @execute_circuit_eq. Qed.
+Print Assumptions execute_circuit_sv_ok.
+
+(* density-matrix execution of a queue with FusedGates (Circuit.fuse with density_matrix=True) *)
+Theorem dm_queue_ok : forall (T : Type) (K : ops T) (cj : T -> T), semiring K -> conj_ok K cj ->
+  forall n (q : list qitem) (rho : mat T), Forall (item_ok n) q -> wf_mat n rho ->
+  execute_dm_queue K cj n q rho = sandwich K cj n (circ_op K n (flatten q)) rho.
+Proof. exact @execute_dm_queue_eq. Qed.
+Print Assumptions dm_queue_ok.
